@@ -56,6 +56,17 @@ func execCase(c *Case) (v *Verdict) {
 	return &Verdict{Index: c.Index, Infra: "unknown case kind " + c.Kind}
 }
 
+// heartbeat tells the driver that the worker is making progress inside a case that consists of many
+// executions (fault enumeration): the driver's watchdog is a no-progress timer, not a per-case limit.
+var heartbeatOut *bufio.Writer
+
+func heartbeat() {
+	if heartbeatOut != nil {
+		heartbeatOut.WriteString("{\"hb\":true}\n")
+		heartbeatOut.Flush()
+	}
+}
+
 func workerMain(inflight string) {
 	installLoader()
 	log.SetOutput(io.Discard) // spec logs resolution errors through the std logger; they are observed as errors
@@ -66,6 +77,7 @@ func workerMain(inflight string) {
 	}
 	in := bufio.NewReaderSize(os.Stdin, 1<<20)
 	out := bufio.NewWriterSize(os.Stdout, 1<<20)
+	heartbeatOut = out
 	dec := json.NewDecoder(in)
 	for {
 		var cmd workerCmd
